@@ -9,6 +9,7 @@ import hashlib
 from dataclasses import dataclass, field
 from typing import Optional, Iterable
 from . import astutil as au
+from . import canon
 
 PKG = "eaopack"
 
@@ -146,6 +147,7 @@ class Program:
                 tree = ast.parse(src, filename=p)
             except SyntaxError as e:
                 raise AnalysisError("cannot parse %s: %s" % (p, e))
+            canon.inline_adjacent_temps(tree)
             name = fn[:-3]
             m = ModuleInfo(name, p, src, tree)
             self.modules[name] = m
